@@ -47,37 +47,37 @@ type LoopSpec struct {
 }
 
 type Contract struct {
-	Key        string
-	ParamNames []string // extern only
-	Props      []string
-	Inline     bool
+	Key         string
+	ParamNames  []string // extern only
+	Props       []string
+	Inline      bool
 	InlineCalls bool // verified on its own AND β-reduced at call sites (tiny higher-order combinators)
-	Trusted    bool
-	Pure       bool
-	Terminates bool
-	Extern     bool
-	Mode       map[string]string
-	Ghosts     []GhostDecl
-	GhostIns   []GhostDecl // ghost parameters: supplied by the caller (pass), universally quantified in the callee
-	Requires   []Clause
+	Trusted     bool
+	Pure        bool
+	Terminates  bool
+	Extern      bool
+	Mode        map[string]string
+	Ghosts      []GhostDecl
+	GhostIns    []GhostDecl // ghost parameters: supplied by the caller (pass), universally quantified in the callee
+	Requires    []Clause
 	GhostAssume []Clause
-	OnPanic    []Clause // must hold whenever the function terminates abnormally (panic / exit)
-	Ensures    []Clause
-	Returns    SExpr
-	ReturnsSrc string
-	ReturnsDef bool // the returns clause NAMES the result of a pure deterministic function (definitional: assumed, not proved)
-	Panics     string // "", "never", "may", "iff"
-	PanicsCond SExpr
-	PanicsSrc  string
-	Loops      map[int]*LoopSpec
-	CallLoops  map[string]*LoopSpec // "callee#k/n": loop n of the callee inlined at the k-th call of callee
-	InlineAt   map[string]bool      // "callee#k": inline the callee's body at this call site
-	GhostAts   []GhostAt
-	ParamSpecs map[string]string
-	Modifies   []string
-	Notes      []string
-	File       string
-	Line       int
+	OnPanic     []Clause // must hold whenever the function terminates abnormally (panic / exit)
+	Ensures     []Clause
+	Returns     SExpr
+	ReturnsSrc  string
+	ReturnsDef  bool   // the returns clause NAMES the result of a pure deterministic function (definitional: assumed, not proved)
+	Panics      string // "", "never", "may", "iff"
+	PanicsCond  SExpr
+	PanicsSrc   string
+	Loops       map[int]*LoopSpec
+	CallLoops   map[string]*LoopSpec // "callee#k/n": loop n of the callee inlined at the k-th call of callee
+	InlineAt    map[string]bool      // "callee#k": inline the callee's body at this call site
+	GhostAts    []GhostAt
+	ParamSpecs  map[string]string
+	Modifies    []string
+	Notes       []string
+	File        string
+	Line        int
 }
 
 type SpecFun struct {
